@@ -1,6 +1,7 @@
 import FloVerif.Driver.Util
 import FloVerif.Driver.C05
 import FloVerif.Gen.CurveBounds
+import FloVerif.Gen.PathBounds2
 /-! Correspondence for C06: the generated 1-D bounding-box kernels (Float mirror) against the implementation, per axis. -/
 namespace Driver.C06
 open Prelude Gen Driver Driver.C05
@@ -55,6 +56,19 @@ def handle (op stream : String) (ins outs : List String) : List Out :=
     let one (name : String) (m : Float) (i : Nat) : Out :=
       { field := name, cmp := if m.toBits == (ov.getD i default).bits then .same 0 else .diff s!"model={m} impl={(ov.getD i default).f}", fbit := some (m.toBits == (ov.getD i default).bits) }
     [one "pbox.min" b.t0 0, one "pbox.max" b.t1 1, one "pbox.fast_min" f.t0 2, one "pbox.fast_max" f.t1 3]
+  | "pbox2" =>
+    -- ins: #k, k boxes (minx miny maxx maxy) of the curves, k fast boxes; outs: path box (4), path fast box (4)
+    let k := parseNat (ins.headD "#0")
+    let vals : List Float := (ins.drop 1).map (fun s => (⟨parseHex s⟩ : FV).f)
+    let ov : List FV := outs.map (fun s => ⟨parseHex s⟩)
+    let boxAt (off i : Nat) : T2 (V2 Float) (V2 Float) :=
+      T2.mk ⟨vals.getD (off + 4*i) 0, vals.getD (off + 4*i+1) 0⟩ ⟨vals.getD (off + 4*i+2) 0, vals.getD (off + 4*i+3) 0⟩
+    let b := path_bounding_box2 (List.range k) (boxAt 0)
+    let f := path_fast_bounding_box2 (List.range k) (boxAt (4*k))
+    let one (name : String) (m : Float) (i : Nat) : Out :=
+      { field := name, cmp := if m.toBits == (ov.getD i default).bits then .same 0 else .diff s!"model={m} impl={(ov.getD i default).f}", fbit := some (m.toBits == (ov.getD i default).bits) }
+    [one "pbox2.min.x" b.t0.x 0, one "pbox2.min.y" b.t0.y 1, one "pbox2.max.x" b.t1.x 2, one "pbox2.max.y" b.t1.y 3,
+     one "pbox2.fast_min.x" f.t0.x 4, one "pbox2.fast_min.y" f.t0.y 5, one "pbox2.fast_max.x" f.t1.x 6, one "pbox2.fast_max.y" f.t1.y 7]
   | _ => [{ field := "unknown-op " ++ op, cmp := .diff "driver does not know this operation", fbit := none }]
 
 end Driver.C06
